@@ -636,6 +636,38 @@ def run(world, rep, tier, only=None):
                            (a_.text()[:40], a_.line, by_area, by_isize))
     rep.floor("C06.k caller-allocated buffers handed to ext2fs_inline_data_get", n_k6, 1)
 
+    # ------------------------------------------------------------------ C06.l a name appended to a path has room for its separator and its NUL
+    # path_append() (misc/create_inode.c) keeps the path of the entry being copied for messages and appends
+    # "/" + name with sprintf().  The test that decides whether the buffer must grow counts both extra bytes
+    # (length so far + name + 2 against the size), or a name of the right length writes one byte past the end.
+    mprog = world.program("mke2fs", plain=True)
+    pa = mprog.fn("path_append", "misc/create_inode.c")
+    grows = calls_to(pa, "realloc") + [n for n in pa.events("S") if any(cc.get("fn") == "realloc" for cc in T.calls(n.ev.get("rhs") or {}))]
+    rep.floor("C06.l buffer growth in path_append", len(grows), 1)
+    room = False
+    for b in pa.blocks:
+        lit = pa.literal(b)
+        a0 = T.strip(lit[0]) if lit else None
+        if not (isinstance(a0, dict) and a0.get("k") == "b" and a0.get("o") in ("<", "<=", ">", ">=")):
+            continue
+        l_, r_, o_ = a0["l"], a0["r"], a0["o"]
+        if o_ in ("<", "<="):
+            l_, r_, o_ = r_, l_, {"<": ">", "<=": ">="}[o_]
+        fl_, fr_ = linear_form(l_, pa, depth=2), linear_form(r_, pa, depth=2)
+        if fl_ is None or fr_ is None or not any("path_len" in str(k) for k in fl_) or not any("path_max_len" in str(k) for k in fr_):
+            # strlen(file) is not a linear term: take the constant of the sum it stands in
+            txt = T.pp(resolve_local(pa, l_))
+            if "path_len" in txt and "path_max_len" in T.pp(r_):
+                import re as _re2
+                m_ = _re2.findall(r"\+ (\d+)\)", txt)
+                c_ = sum(int(x) for x in m_) if m_ else 0
+                room = room or (o_ == ">" and c_ >= 2) or (o_ == ">=" and c_ >= 1)
+            continue
+        c_ = fl_.get(1, 0) - fr_.get(1, 0)
+        room = room or (o_ == ">" and c_ >= 2) or (o_ == ">=" and c_ >= 1)
+    rep.ob("C06.l", site(pa, "growth test counts the separator and the NUL"), room,
+           "the comparison of path_len + strlen(name) + K with path_max_len that guards the realloc has K >= 2")
+
     # C06.b cursor lifetime in the rbtree bitmap — shared with C16.b
     try:
         from rules import C16
